@@ -72,6 +72,23 @@ def cases(ctx):
         src = f"*={org:#08x}\n.for i := {lo}, {hi} {{\nlab:\n.db i\n.dw lab\n}}\nend:\n.dl end\n"
         twin = f"*={org:#08x}\n" + "".join(f"{{\ni = {k}\nlab:\n.db i\n.dw lab\n}}\n" for k in range(lo, hi)) + "end:\n.dl end\n"
         out.append({"kind": f"for:{lo}:{hi}", "rom": "low", "src": src, "twin_src": twin, "spec": {"t": "twin", "labels": False}})
+    # the loop variable reuses a name of the surroundings (constant, define-like symbol, macro parameter)
+    for outer in ("i := 0x20\n", "i = 0x20\n", "i:\n"):
+        out.append({"kind": "for:shadows-outer", "rom": "low", "spec": {"t": "twin", "labels": False},
+                    "src": f"*={org:#08x}\n{outer}.db i & 0xFF\n.for i := 0, 4 {{\n.db i\nlda.b #i\n.dw 0x1000 + i\n}}\n.db i & 0xFF\n",
+                    "twin_src": f"*={org:#08x}\n{outer}.db i & 0xFF\n" + "".join(f".db {k}\nlda.b #{k}\n.dw 0x1000 + {k}\n" for k in range(4)) + ".db i & 0xFF\n"})
+    out.append({"kind": "for:shadows-parameter", "rom": "low", "spec": {"t": "twin", "labels": False},
+                "src": f"*={org:#08x}\n.macro stripe(k) {{\n.db k\n.for k := 0, 3 {{\n.db k\n}}\n.db k\n}}\nstripe(7)\n",
+                "twin_src": f"*={org:#08x}\n.db 7, 0, 1, 2, 7\n"})
+    # an empty first block / empty else block
+    for cond, taken in (("1", True), ("0", False), ("-1", True), ("nope", False)):
+        for first, second in (("", ".db 2\n"), (".db 1\n", ""), ("", ""), ("; only a comment\n", ".db 2\n"), ("/* c */\n", ".db 2\n")):
+            src = f"*={org:#08x}\n.db 0xEE\n.if {cond} {{\n{first}}} else {{\n{second}}}\nend:\n.dl end\n"
+            body = first if taken else second
+            if body.startswith(";") or body.startswith("/*"):
+                body = ""
+            out.append({"kind": f"if-empty:{cond}", "rom": "low", "spec": {"t": "twin", "labels": True},
+                        "src": src, "twin_src": f"*={org:#08x}\n.db 0xEE\n{body}end:\n.dl end\n"})
     # bounds from constants and macro parameters; nesting
     out.append({"kind": "for:param", "rom": "low", "spec": {"t": "twin", "labels": False},
                 "src": f"*={org:#08x}\n.macro rep(n, v) {{\n.for j := 0, n {{\n.db v + j\n}}\n}}\nc := 2\nrep(3, 0x10)\nrep(c, 0x20)\nrep(0, 9)\n",
